@@ -90,6 +90,11 @@ CLAIMED["C19"] = ("map-order taint lint (E8), predicated path enumeration for th
          "go/ssa model; sort.* sorts; ygot not analysed",
          "DESIGN.md §3 C19")
 
+CLAIMED["C20"] = ("forbidden-call / receiver-provenance rule for randomness (E5b), map-order lint (E8), predicated path enumeration with boundary atoms for clamps, deltas and repeat counts (E4), structural dataflow for head/sync, oneof exhaustiveness (E7)",
+         "Static, all-paths for the synthetic target: every random draw comes from a seeded *rand.Rand of the generator (no global rand, no crypto/rand, time.Now only for a zero seed, no map order), clamps store max/min/drawn on every boundary combination for int/uint/double, timestamp deltas refuse min>max and min<0 and add Int63n(max-min+1)+min, repeat boundaries (1 drops, >1 decrements the clone never the configuration, 0 indefinite) and re-add iff alive, head read before advance, sync injected with the same queue's latest timestamp, every value kind handled or explicit default. Necessary conditions of reproducibility, boundedness and repeat exactness; global ordering by the binary-search insertion, overflow and concurrent use are not decided.",
+         "go/ssa model; math/rand determinism for a fixed seed assumed; single-goroutine use",
+         "DESIGN.md §3 C20")
+
 NA_REASON = {}
 DEFAULT_NA = "check not built yet in this round (static rules designed in DESIGN.md section 3); not claimed until the rule runs"
 
